@@ -1,5 +1,6 @@
 import Driver.Util
 import TrimeshVerif.Model.RunLength
+import TrimeshVerif.Model.Views
 open Lean Drv TV.RunLength
 namespace Drv.C13
 
@@ -20,6 +21,26 @@ def handle (j : Json) : Except String Json := do
   let op ← fld j "op" jStr
   let m ← fldD j "m" jNat 255
   match op with
+  | "viewmap" =>
+    -- index maps of the lazy views on a list of multi-indices
+    let shape ← fld j "shape" (jList jNat)
+    let newShape ← fldD j "new_shape" (jList jNat) []
+    let axes ← fldD j "axes" (jList jNat) []
+    let perm ← fldD j "perm" (jList jNat) []
+    let idx ← fld j "idx" (jList (jList jNat))
+    let flatIdx ← fldD j "flat_idx" (jList jNat) []
+    let data ← fldD j "data" (jList jInt) []
+    pure <| obj [
+      ("in_range", ofList (fun i => ofBool (TV.Views.inRange shape i)) idx),
+      ("ravel", ofList (fun i => ofNat (TV.Views.ravel shape i)) idx),
+      ("unravel", ofList (fun k => ofList ofNat (TV.Views.unravel shape k)) flatIdx),
+      ("flip", ofList (fun i => ofList ofNat (TV.Views.flipIdx shape axes i)) idx),
+      ("reshape_to_base", ofList (fun k => ofList ofNat (TV.Views.unravel shape k)) flatIdx),
+      ("unravel_new", ofList (fun k => ofList ofNat (TV.Views.unravel newShape k)) flatIdx),
+      ("take_perm", ofList (fun i => ofList ofNat (TV.Views.takeIdx perm i)) idx),
+      ("take_inv", ofList (fun i => ofList ofNat (TV.Views.takeIdx (TV.Views.invPerm perm) i)) idx),
+      ("transposed_shape", ofList ofNat (TV.Views.transposeShape shape perm)),
+      ("entries", ofList (fun i => ofInt (TV.Views.entry 0 shape data i)) idx)]
   | "dense_to_rle" =>
     let d ← fld j "d" (jList jInt)
     let r := denseToRle m d
